@@ -220,6 +220,7 @@ func runX2(p *an.Prog, r *an.Result) {
 		name := roles.Label(fn)
 		kindSw := map[ssa.Value]map[string]bool{}
 		kindPos := map[ssa.Value]token.Pos{}
+		firstCmp := map[ssa.Value]*ssa.BinOp{}
 		typeSw := map[ssa.Value]map[string]bool{}
 		typePos := map[ssa.Value]token.Pos{}
 		an.EachInstr(fn, func(in ssa.Instruction) {
@@ -243,6 +244,7 @@ func runX2(p *an.Prog, r *an.Result) {
 					if kindSw[pair[0]] == nil {
 						kindSw[pair[0]] = map[string]bool{}
 						kindPos[pair[0]] = x.Pos()
+						firstCmp[pair[0]] = x
 					}
 					kindSw[pair[0]][kn] = true
 				}
@@ -282,6 +284,9 @@ func runX2(p *an.Prog, r *an.Result) {
 			construct := fmt.Sprintf("%s on %s", kind, describe(p, v))
 			if ok, missing := familyVerdict(has); ok {
 				r.OK(name, construct, pos, "handles "+strings.Join(names, ", "))
+			} else if outer := enclosingCompleteDispatch(v, firstCmp[v], kindSw); outer != nil {
+				r.OK(name, construct, pos, "a nested dispatch inside an arm of a dispatch on the same kind that lists the whole family: its default arm stays within the family")
+				_ = missing
 			} else {
 				r.Bad(name, construct, pos, fmt.Sprintf("%s dispatches on %s but not on %s: values of the missing widths take another path, so equal numbers of different widths behave differently", an.FuncName(fn), strings.Join(names, ", "), strings.Join(missing, ", ")))
 			}
@@ -390,4 +395,38 @@ func blockPanics(b *ssa.BasicBlock) bool {
 		b = b.Succs[0]
 	}
 	return false
+}
+
+// enclosingCompleteDispatch: the comparisons on kind expression v start in a block that is reached
+// only through an arm of another dispatch, on an equal kind expression, whose family is complete.
+func enclosingCompleteDispatch(v ssa.Value, first *ssa.BinOp, all map[ssa.Value]map[string]bool) ssa.Value {
+	if first == nil {
+		return nil
+	}
+	sameKindExpr := func(a, b ssa.Value) bool {
+		ca, cb := an.CallOf(a), an.CallOf(b)
+		if ca == nil || cb == nil || an.CallName(ca) != an.CallName(cb) || !strings.HasSuffix(an.CallName(ca), ").Kind") {
+			return false
+		}
+		ra, rb := an.Args(ca), an.Args(cb)
+		return len(ra) > 0 && len(rb) > 0 && sameValue(ra[0], rb[0])
+	}
+	for w, has := range all {
+		if w == v || !sameKindExpr(w, v) {
+			continue
+		}
+		if ok, _ := familyVerdict(has); !ok {
+			continue
+		}
+		if an.AllPathsGuarded(first.Block(), func(cond ssa.Value, taken bool) bool {
+			b, ok := cond.(*ssa.BinOp)
+			if !ok || b.Op != token.EQL || !taken {
+				return false
+			}
+			return b.X == w || b.Y == w
+		}) {
+			return w
+		}
+	}
+	return nil
 }
